@@ -134,10 +134,9 @@ func (v *DataModelView) DrawRelation(
 		var s string
 		if typeRef := attrType.GetTypeRef(); typeRef != nil {
 			targetEntity := v.UniqueVarForAppName(typeRef.GetRef().Path[0])
-			s = fmt.Sprintf("+ %s : **%s.%s** <<FK>>\n",
+			s = fmt.Sprintf("+ %s : **%s** <<FK>>\n",
 				attrName,
-				typeRef.GetRef().Path[0],
-				typeRef.GetRef().Path[1])
+				strings.Join(typeRef.GetRef().Path, "."))
 			if _, exists := relationshipMap[encEntity]; !exists {
 				relationshipMap[encEntity] = map[string]RelationshipParam{}
 			}
